@@ -22,7 +22,10 @@ of the enclosing pipeline's inputs / of the earlier calls' output structs) -/
 def HasTy (st : StructTable) (sT cT : String → Ty) : Ty → Exp → Prop
   | t, .lit j => LitOk st t j
   | t, .arr xs => t.arrDim ≠ 0 ∧ HasTyList st sT cT { t with arrDim := t.arrDim - 1 } xs
-  | t, .map kvs => t.arrDim = 0 ∧ t.mapDim ≠ 0 ∧ HasTyFields st sT cT ⟨t.base, 0, t.mapDim - 1⟩ kvs
+  | t, .map kvs =>
+    (t.arrDim = 0 ∧ t.mapDim ≠ 0 ∧ HasTyFields st sT cT ⟨t.base, 0, t.mapDim - 1⟩ kvs) ∨
+    -- a reference-free literal where an untyped `map` is expected
+    (t.arrDim = 0 ∧ t.mapDim = 0 ∧ st.lookup t.base = none ∧ Exp.isJsonFields kvs = true)
   | t, .struct kvs => t.arrDim = 0 ∧ t.mapDim = 0 ∧
       ∃ ps, st.lookup t.base = some ps ∧ HasTyMembers st sT cT ps kvs ∧ ∀ p ∈ ps, (kvs.lookup p.name).isSome
   | t, .self p path => PathOk st (sT p) path ∧ Sub st (pathTy st (sT p) path) t
@@ -87,6 +90,47 @@ theorem mem_resolveRefsFields (self sib : RBMap) :
       obtain ⟨e, he, hr⟩ := mem_resolveRefsFields self sib es k e' h
       exact ⟨e, by simp [he], hr⟩
 
+/-! ## reference-free literals -/
+
+mutual
+theorem resolveRefs_json (st : StructTable) (env : Env) (ρ : Store) (f : ForkAssign) (self sib : RBMap) :
+    ∀ e : Exp, Exp.isJson e = true →
+      jsonR (resolveRefs self sib e) = true ∧ evalR st ρ f (resolveRefs self sib e) = eval st env e
+  | .lit j, _ => by simp [resolveRefs, jsonR, evalR, eval]
+  | .arr xs, h => by
+    simp only [Exp.isJson] at h
+    have := resolveRefs_jsonList st env ρ f self sib xs h
+    simp only [resolveRefs, jsonR, evalR, eval, this.1, this.2, and_self]
+  | .map kvs, h => by
+    simp only [Exp.isJson] at h
+    have := resolveRefs_jsonFields st env ρ f self sib kvs h
+    simp only [resolveRefs, jsonR, evalR, eval, this.1, this.2, and_self]
+  | .struct _, h => by simp [Exp.isJson] at h
+  | .self _ _, h => by simp [Exp.isJson] at h
+  | .ref _ _, h => by simp [Exp.isJson] at h
+theorem resolveRefs_jsonList (st : StructTable) (env : Env) (ρ : Store) (f : ForkAssign) (self sib : RBMap) :
+    ∀ es : List Exp, Exp.isJsonList es = true →
+      jsonRList (resolveRefsList self sib es) = true ∧
+      evalRList st ρ f (resolveRefsList self sib es) = evalList st env es
+  | [], _ => by simp [resolveRefsList, jsonRList, evalRList, evalList]
+  | e :: es, h => by
+    simp only [Exp.isJsonList, Bool.and_eq_true] at h
+    have h1 := resolveRefs_json st env ρ f self sib e h.1
+    have h2 := resolveRefs_jsonList st env ρ f self sib es h.2
+    simp only [resolveRefsList, jsonRList, evalRList, evalList, h1.1, h1.2, h2.1, h2.2, Bool.and_self, and_self]
+theorem resolveRefs_jsonFields (st : StructTable) (env : Env) (ρ : Store) (f : ForkAssign) (self sib : RBMap) :
+    ∀ es : List (String × Exp), Exp.isJsonFields es = true →
+      jsonRFields (resolveRefsFields self sib es) = true ∧
+      evalRFields st ρ f (resolveRefsFields self sib es) = evalFields st env es
+  | [], _ => by simp [resolveRefsFields, jsonRFields, evalRFields, evalFields]
+  | (k, e) :: es, h => by
+    simp only [Exp.isJsonFields, Bool.and_eq_true] at h
+    have h1 := resolveRefs_json st env ρ f self sib e h.1
+    have h2 := resolveRefs_jsonFields st env ρ f self sib es h.2
+    simp only [resolveRefsFields, jsonRFields, evalRFields, evalFields, h1.1, h1.2, h2.1, h2.2, Bool.and_self,
+      and_self]
+end
+
 /-! ## E -/
 
 section E
@@ -117,16 +161,26 @@ theorem eval_resolveRefs :
   | .map kvs, t, h => by
     obtain ⟨b, m, a⟩ := t
     simp only [HasTy] at h
-    obtain ⟨ha, hm, hk⟩ := h
-    try simp only at ha hm
-    subst ha
-    cases m with
-    | zero => exact absurd rfl hm
-    | succ k =>
-      have ih := eval_resolveRefsFields kvs ⟨b, 0, k⟩ hk
-      have c : ((0 : Nat) == 0 && (k + 1 != 0)) = true := by simp
-      simp only [eval, resolveRefs, evalRT, c, if_true, Nat.add_sub_cancel, narrow_obj hF, ih.1, HasTyR]
-      exact ⟨trivial, trivial, by simp, ih.2⟩
+    rcases h with ⟨ha, hm, hk⟩ | ⟨ha, hm, hl, hj⟩
+    · try simp only at ha hm
+      subst ha
+      cases m with
+      | zero => exact absurd rfl hm
+      | succ k =>
+        have ih := eval_resolveRefsFields kvs ⟨b, 0, k⟩ hk
+        have c : ((0 : Nat) == 0 && (k + 1 != 0)) = true := by simp
+        simp only [eval, resolveRefs, evalRT, c, if_true, Nat.add_sub_cancel, narrow_obj hF, ih.1, HasTyR]
+        exact ⟨trivial, Or.inl ⟨trivial, by simp, ih.2⟩⟩
+    · -- a reference-free literal where an untyped `map` is expected: it is delivered as it stands
+      try simp only at ha hm hl
+      subst ha; subst hm
+      have hj' : Exp.isJson (.map kvs) = true := by simpa [Exp.isJson] using hj
+      obtain ⟨j1, j2⟩ := resolveRefs_json st env ρ f self sib (.map kvs) hj'
+      refine ⟨?_, ?_⟩
+      · rw [narrow_scalar hF b hl, evalRT_json st F ρ _ ⟨b, 0, 0⟩ f j1 rfl hl, j2]
+      · simp only [resolveRefs, jsonR] at j1
+        simp only [resolveRefs, HasTyR]
+        exact Or.inr ⟨trivial, trivial, hl, j1⟩
   | .struct kvs, t, h => by
     obtain ⟨b, m, a⟩ := t
     simp only [HasTy] at h
